@@ -272,13 +272,15 @@ var floatNeighbours = map[string][]string{
 	"2.5":       {"2", "3", "2.4999999"},
 	"0.1":       {"0.0999999", "0.1000001", "0"},
 	"-3.25":     {"-3.2500001", "-3.2499999", "-3"},
+	// integers a 64-bit float cannot tell apart
+	"9007199254740993": {"9007199254740992", "9007199254740994", "9007199254740995"},
 }
 
 // FamilyFloatBounds: value ranges whose bound is not an integer, among them bounds that need more
 // than six decimals; data values sit on both sides of the bound and on it.
 func FamilyFloatBounds(thorough bool) []Program {
 	var out []Program
-	bounds := []string{"1.0000004", "2.5"}
+	bounds := []string{"1.0000004", "2.5", "9007199254740993"}
 	if thorough {
 		bounds = append(bounds, "0.1", "-3.25")
 	}
